@@ -12,13 +12,13 @@ REPO = os.environ.get("VERIF_REPO", "/repo")
 # stages marked supplementary: a violation there fails the check like any other, but an
 # inconclusive supplementary stage (tool could not run, budget exhausted) is only recorded in the
 # evidence: the deciding oracle of those properties is the native monitor
-SUPPLEMENTARY = {"miri", "nohooks", "stdbuild", "constrained"}
+SUPPLEMENTARY = {"miri", "nohooks", "stdbuild", "constrained", "fvbuild"}
 
 PROPS = {
     "C01": {"level": "exploration", "stages": ["native"]},
     "C02": {"level": "exploration", "stages": ["native", "nohooks"]},
     "C03": {"level": "exploration", "stages": ["native"]},
-    "C04": {"level": "fault_enumeration", "stages": ["native"]},
+    "C04": {"level": "fault_enumeration", "stages": ["native", "fvbuild"]},
     "C05": {"level": "exploration", "stages": ["native"]},
     "C06": {"level": "exploration", "stages": ["native", "nohooks", "constrained", "miri"]},
     "C07": {"level": "exploration", "stages": ["native"]},
@@ -190,6 +190,22 @@ class Run:
         merged = self.merge_docs(docs)
         merged["counters"]["constrained_builds"] = len(configs)
         return merged
+
+    def stage_fvbuild(self):
+        """the same driver in a build with the library's fast_verify feature (hbs_lms::sign_mut
+        exists only there); shares its target directory with the C15 stage"""
+        tdir = os.path.join(self.root, "target", "c15", "T2-M7")
+        env = {"HBS_LMS_THREADS": "2", "HBS_LMS_MAX_HASH_OPTIMIZATIONS": "7"}
+        code, out = sh(["cargo", "build", "--release", "--offline", "-p", "hbsmon", "--features", "fv", "--target-dir", tdir], cwd=self.harness, env=env, timeout=1800)
+        if code != 0:
+            return {"inconclusive": ["fast_verify build failed: " + out[-400:]]}
+        res = os.path.join(self.results, f"{self.prop}-fv.json")
+        if os.path.exists(res):
+            os.remove(res)
+        c, text = sh([os.path.join(tdir, "release", "hbsmon"), self.prop, "--tier", self.tier, "--seed", str(self.seed), "--out", res], cwd=self.root, env=self.env, timeout=WATCHDOG[self.tier])
+        if c != 0 or not os.path.exists(res):
+            return {"inconclusive": [f"driver of the fast_verify build failed (exit {c}): " + text[-400:]]}
+        return json.load(open(res))
 
     def stage_stdbuild(self):
         """the same driver against the library built with its `std` feature (the configuration in
@@ -399,6 +415,8 @@ class Run:
         # (threads, max hash optimizations, quick?)
         (1, 100, True), (2, 7, True), (8, 100, True), (16, 1, True),
         (1, 1, False), (1, 10000, False), (2, 100, False), (4, 7, False), (4, 10000, False), (8, 7, False), (16, 100, False), (16, 10000, False),
+        # no trial at all (MAX_HASH_OPTIMIZATIONS / THREADS == 0): the signature must still be an ordinary valid one
+        (1, 0, False), (4, 3, False),
     ]
 
     def stage_c15(self):
